@@ -1,3 +1,10 @@
 //! Safe-Rust verification hooks for this module (accessors/wrappers only; no logic).
 #![allow(unused_imports, dead_code)]
 use super::*;
+
+// --- C39 (np_misc_h): thin wrappers around the private deserialisation helpers.
+pub fn accumulated_step_panic_threshold<'de, D: Deserializer<'de>>(
+    deserializer: D,
+) -> Result<Option<NtpDuration>, D::Error> {
+    deserialize_option_accumulated_step_panic_threshold(deserializer)
+}
